@@ -624,6 +624,60 @@ def lit(ev):
         ev.value is not None and isinstance(ev.value, ast.Constant) and isinstance(ev.value.value, int)) else None
 
 
+def _modulus_candidates(m, name, consts, depth=0):
+    """the integers the module-level name can be bound to when the module has been imported: an integer literal, another such
+    name, or `TABLE[key]` / `TABLE.get(key, default)`-free subscripts of a module-level dict whose values are such integers"""
+    if name in consts:
+        return {consts[name]}
+    if depth > 4:
+        return None
+    binds = [n for n in m.tree.body if isinstance(n, ast.Assign) and len(n.targets) == 1 and isinstance(n.targets[0], ast.Name)
+             and n.targets[0].id == name]
+    # bound anywhere else (if-arms, functions with `global`)? then not a plain module constant
+    others = [n for n in ast.walk(m.tree) if isinstance(n, (ast.Assign, ast.AugAssign, ast.AnnAssign)) and n not in binds and any(
+        isinstance(x, ast.Name) and x.id == name and isinstance(x.ctx, ast.Store) for x in ast.walk(n))
+        and not _local_to_function(m, n, name)]
+    if len(binds) != 1 or others:
+        return None
+    v = binds[0].value
+    if isinstance(v, ast.Name):
+        return _modulus_candidates(m, v.id, consts, depth + 1)
+    if isinstance(v, ast.Subscript) and isinstance(v.value, ast.Name):
+        tb = [n for n in m.tree.body if isinstance(n, ast.Assign) and len(n.targets) == 1 and isinstance(n.targets[0], ast.Name)
+              and n.targets[0].id == v.value.id]
+        if len(tb) != 1 or not isinstance(tb[0].value, ast.Dict):
+            return None
+        # the table must not be written elsewhere
+        for n in ast.walk(m.tree):
+            if isinstance(n, ast.Subscript) and isinstance(n.ctx, (ast.Store, ast.Del)) and norm(n.value) == v.value.id:
+                return None
+            if isinstance(n, ast.Call) and isinstance(n.func, ast.Attribute) and norm(n.func.value) == v.value.id \
+                    and n.func.attr in ("update", "pop", "setdefault", "clear", "popitem"):
+                return None
+        out = set()
+        for e in tb[0].value.values:
+            l = int_literal(e)
+            if l is not None:
+                out.add(l)
+            elif isinstance(e, ast.Name):
+                c = _modulus_candidates(m, e.id, consts, depth + 1)
+                if not c:
+                    return None
+                out |= c
+            else:
+                return None
+        return out
+    return None
+
+
+def _local_to_function(m, node, name):
+    """the binding `node` of `name` sits in a function that does not declare the name global"""
+    for f in ast.walk(m.tree):
+        if isinstance(f, (ast.FunctionDef, ast.Lambda)) and any(x is node for x in ast.walk(f)):
+            return not any(isinstance(g, ast.Global) and name in g.names for g in ast.walk(f))
+    return False
+
+
 def _stored_canonical(m, listname, modname):
     """every `listname.append(E)` of the module stores a canonical element: E, with locals resolved, is `X % modname`, or a call of a
     module-level helper all of whose returns are; and nothing else writes the list"""
@@ -698,10 +752,15 @@ def check(repo, rep, tier):
         rets = [x for x in ast.walk(gm.node) if isinstance(x, ast.Return)]
         if rets and isinstance(rets[0].value, ast.Name):
             modname = rets[0].value.id
-    if modname is None or modname not in consts:
+    cands = _modulus_candidates(m, modname, consts) if modname is not None else None
+    if not cands:
         raise AnalysisError("snarkjs modulus constant not found")
-    p = consts[modname]
-    fs = (p.bit_length() + 7) // 8
+    # the modulus may be chosen from a table of primes at import time: every statement below is shown for each of them
+    p = min(cands)
+    sizes = {(c.bit_length() + 7) // 8 for c in cands}
+    if len(sizes) != 1:
+        raise AnalysisError("the selectable moduli have different byte sizes %s: the fixed-width layout is not decided here" % sorted(sizes))
+    fs = sizes.pop()
     it = Interp(fi, consts, m)
     it.run()
     if "witness.wtns" not in it.streams or "circuit.r1cs" not in it.streams:
@@ -741,6 +800,14 @@ def check(repo, rep, tier):
     def pv(ev):
         return it.poly(ev.value) if ev.value is not None else None
 
+    def same_modulus(node):
+        """node denotes the declared modulus: its name, or a constant name when that is the only selectable value"""
+        t_ = norm(node)
+        if t_ == modname:
+            return True
+        c_ = _modulus_candidates(m, t_, consts) if isinstance(node, ast.Name) else None
+        return bool(c_) and len(cands) == 1 and c_ == cands
+
     def canonical32(ev, what):
         """R-C10-1 for one field-size write."""
         v = ev.value
@@ -757,9 +824,15 @@ def check(repo, rep, tier):
         elif t == modname:
             ok = True
             why = "the modulus itself (header field)"
-        elif isinstance(v, ast.BinOp) and isinstance(v.op, ast.Mod) and norm(v.right) == modname:
+        elif isinstance(v, ast.BinOp) and isinstance(v.op, ast.Mod) and same_modulus(v.right):
             ok = True
             why = "reduced: %s" % t
+        elif isinstance(v, ast.BinOp) and isinstance(v.op, ast.Mod) and _modulus_candidates(m, norm(v.right), consts):
+            r1.violation(where, fi.fq, "%s: writes `%s` in %d bytes" % (what, t, fs),
+                         "%s is reduced by `%s`, but the field the files declare (and get_modulus() reports) is `%s`, which can be "
+                         "another prime (%d selectable): the element is not canonical for the declared field"
+                         % (what, norm(v.right), modname, len(cands)), "canon/%s" % what.replace(" ", "-"))
+            return
         if ok:
             r1.ok(where, fi.fq, "%s: %s" % (what, t), why)
         else:
